@@ -153,6 +153,17 @@ type Contracts struct {
 	Abstractions map[string]*Abstraction // ghost global name -> definition over the state of a receiver type
 	Writers   []*WritersDecl
 	GlobalInvs map[string][]*Clause // package path -> invariants over package-level variables
+	GhostDefs  map[string]*GhostDef // qualified type + "." + $name -> definition over the object's real fields (used when an implementation is verified against an interface contract)
+}
+
+// GhostDef: `ghostdef (w *T).$g := expr` - for objects of type T the ghost attribute $g of an interface contract IS expr.
+type GhostDef struct {
+	Var  string
+	Type string
+	Name string
+	E    Expr
+	Src  string
+	Pkg  string
 }
 
 // WritersDecl: `writers [tags] T.f in F1, F2` - only the listed functions may store to field T.f (syntactic, whole module).
@@ -727,6 +738,20 @@ func (cs *Contracts) loadContractFile(path, pkgPath string, short map[string]str
 				return fail("%v", err)
 			}
 			cs.Abstractions[m[1]] = &Abstraction{Name: m[1], Key: m[2], Var: m[3], Type: cs.qualify(m[4], pkgPath, short), E: e, Src: m[5], Pkg: pkgPath, Havocs: hv}
+		case "ghostdef":
+			m := regexp.MustCompile(`^\((\w+)\s+\*?([\w./]+)\)\.(\$\w+)\s*:=\s*(.*)$`).FindStringSubmatch(rest)
+			if m == nil {
+				return fail("ghostdef (x *T).$g := expr")
+			}
+			e, err := parseSpec(cs.expandModSets(m[4]))
+			if err != nil {
+				return fail("%v", err)
+			}
+			if cs.GhostDefs == nil {
+				cs.GhostDefs = map[string]*GhostDef{}
+			}
+			t := cs.qualify(m[2], pkgPath, short)
+			cs.GhostDefs[t+"."+m[3]] = &GhostDef{Var: m[1], Type: t, Name: m[3], E: e, Src: rest, Pkg: pkgPath}
 		case "implements":
 			if curF == nil {
 				return fail("implements outside a function contract")
